@@ -475,7 +475,7 @@ class G(object):
 
     def value(self, ty, cards):
         if is_sort(ty):
-            return self.i(cards[ty[1]])
+            return self.i(cards.get(ty[1], 2))
         if is_arr(ty):
             it, et = ty[1], ty[2]
             d = self.value(et, cards)
@@ -498,8 +498,8 @@ def all_values(ty, cards, limit=64):
         return [False, True]
     if is_bv(ty) and (1 << ty[1]) <= limit:
         return list(range(1 << ty[1]))
-    if is_sort(ty) and cards[ty[1]] <= limit:
-        return list(range(cards[ty[1]]))
+    if is_sort(ty) and cards.get(ty[1], 2) <= limit:
+        return list(range(cards.get(ty[1], 2)))
     return None
 
 
